@@ -101,10 +101,29 @@ def regenerate_termsrc(coq_dir):
     return True, changed, "ok"
 
 
+def regenerate_printsrc(coq_dir):
+    """Gen/PrintSrc.v from /repo/src/term.rs (lib/trans_print.py): base26_encode, show_precedence_cla/dbr,
+    parenthesize_if, the Display and Debug impls.  Same fallback policy as the other two source translators."""
+    import trans_print
+    dst = os.path.join(coq_dir, "theories", "Gen", "PrintSrc.v")
+    base = os.path.join(coq_dir, "baseline", "PrintSrc.v")
+    try:
+        text = trans_print.translate(open(os.path.join(SRC, "term.rs"), encoding="utf-8").read())
+    except trans_print.TransError as e:
+        write_if_changed(dst, open(base, encoding="utf-8").read())
+        return False, False, "the printers of src/term.rs are outside the translated idiom: %s" % e
+    except Exception as e:  # noqa
+        write_if_changed(dst, open(base, encoding="utf-8").read())
+        return False, False, "translator crashed on the printers of src/term.rs: %r" % e
+    changed = write_if_changed(dst, text)
+    return True, changed, "ok"
+
+
 if __name__ == "__main__":
     import sys
     root = os.path.dirname(os.path.dirname(os.path.abspath(__file__)))
     print(regenerate_reducer(os.path.join(root, "coq")))
     print(regenerate_termsrc(os.path.join(root, "coq")))
+    print(regenerate_printsrc(os.path.join(root, "coq")))
     print(regenerate(sys.argv[1] if len(sys.argv) > 1 else os.path.join(root, ".cache/cargo-target/release"),
                      os.path.join(root, "coq"), os.path.join(root, ".cache")))
